@@ -43,6 +43,21 @@ fn main() {
             r.rep.finish();
             drop(r);
         }
+        // data tables of the dependencies, for the specifications that enumerate them: the emoticons that hold a quote character
+        "dump-tables" => {
+            let out = arg(&args, "--out").unwrap();
+            let or = rv::oracles::Oracles::load();
+            let mut emo: Vec<&str> = or.emoticons.keys().copied().filter(|e| e.contains('\'') || e.contains('"')).collect();
+            emo.sort();
+            let v: Vec<Vec<String>> = emo.iter().map(|e| e.chars().map(|c| c.to_string()).collect()).collect();
+            let text = serde_json::to_string(&v).unwrap();
+            if std::fs::read_to_string(&out).ok().as_deref() != Some(text.as_str()) {
+                let tmp = format!("{}.tmp.{}", out, std::process::id());
+                std::fs::write(&tmp, &text).unwrap();
+                std::fs::rename(&tmp, &out).unwrap();
+            }
+            println!("RV-DUMPED {}", v.len());
+        }
         "fresh-server" => {
             // An isolated reference: this process only ever creates brand-new contexts of ONE configuration, types one text into each
             // and prints the rendering.  Nothing another context of another configuration did can reach it (statics, thread-locals).
